@@ -77,3 +77,47 @@ claim("C08", "generated argument tuples per built-in (39 functions) + exhaustive
       "and with named parameters; results compared with a reference implementation written from DMN 1.3 tables 72-76.",
       "Trusts pbt/oracles/bifs_ref.py (own regex matcher for the common sub-grammar, cross-checked against CPython re). Argument classes "
       "the specification does not decide are labelled unspecified and only checked for totality and named == positional.")
+
+claim("C02", "boundary-alphabet grid (every operation x every tuple of a 72-value alphabet) + generated/constructed operand tuples (ties at digit 35, cancellation, range edges), differential against CPython decimal configured as decimal128 and exact rationals",
+      "Exploration with an exhaustive grid: every arithmetic operator, comparison and numeric built-in on boundary tuples and tens of "
+      "thousands of constructed tuples, through the FeelNumber API and through FEEL; correctly rounded results must match digit for digit, "
+      "exp/log/inexact powers within 2 ulp, undefined or out-of-range results must be null, Infinity/NaN are never accepted.",
+      "Trusts libmpdec (CPython decimal) as an independent decimal128 implementation and fractions.Fraction for exact references.")
+
+claim("C09", "exhaustive enumeration of ordered pairs (48x48) and per-kind triples of a value alphabet + generated pairs/triples; algebraic laws between observed results (no external oracle)",
+      "Exploration with exhaustive sub-spaces: truth tables of and/or, symmetry of =, != as negation, mirror images of the ordering "
+      "operators for all values; trichotomy, <= as (< or =), between/in-range/conjunction agreement for numbers, strings and dates.",
+      "Laws only relate results the SUT itself returned; nothing is asserted for kinds the statement does not call ordered.")
+
+claim("C05", "generated-input search over five sources (mutations/truncations of every FEEL text harvested from the repository's tests, arbitrary Unicode, argument sweeps of all built-ins, nesting ramps, entry points x parsing scopes) on both builds + coverage-guided libFuzzer campaign (thorough); validity predicate oracle",
+      "Exploration: hundreds of thousands of requests per run on the overflow-checked and the release build; a panic record, process "
+      "death or a confirmed hang is a violation; the thorough tier adds a libFuzzer campaign on the feel_any target seeded with the "
+      "harvested texts.",
+      "A timeout counts only after three isolated re-runs with a 10x CPU-time budget (else exit 2). Open findings are matched by panic "
+      "file + statement text, so line shifts do not create false alarms.")
+
+claim("C03", "exhaustive grid of small tables (every subset of matching rules x every hit policy) + generated tables with input tuples derived from the table's own boundary points; differential against a reference decision-table evaluator and XML-vs-drawn-text differential",
+      "Exploration with an exhaustive grid: the match pattern (none/one/several equal/several different/all) is chosen by construction; every "
+      "table is evaluated through DMN XML and (when drawable) through recognised box-drawing text, both compared with an independent "
+      "reference evaluator with its own unary-test evaluator.",
+      "Trusts pbt/oracles/dtable_ref.py. Null inputs, inputs outside allowed values, defaults with several outputs and aggregators over "
+      "non-numbers are labelled unspecified (totality/repeatability/path agreement only).")
+
+claim("C19", "generated drawings (renderer for both orientations and all optional parts) with recognise(render(T)) = T round trip and evaluation differential; exhaustive single-character corruptions of small drawings on both builds",
+      "Exploration with an exhaustive corruption part: thousands of generated drawings must be recognised field by field as drawn and "
+      "evaluate like the same table loaded from XML; every position x {delete, blank, each box glyph} of small drawings and sampled "
+      "corruptions of large ones must give a table or an error, never a panic.",
+      "Trusts the renderer pbt/oracles/dtable_draw.py, validated against the repository's gallery (recognise -> render -> recognise).")
+
+claim("C04", "generated acyclic requirement graphs (forced shape classes) evaluated against a reference DRG evaluator (differential) + metamorphic relation: entries outside the requirement closure do not change the result",
+      "Exploration: thousands of generated models (inputs, decisions of every boxed kind, knowledge models, decision services) x every "
+      "invocable x 3 inputs compared with a topological reference evaluation; the same invocation with extra unrelated entries must be "
+      "identical.",
+      "Trusts pbt/oracles/drg_ref.py + the reference FEEL evaluator. Inputs that shadow a required decision/BKM are generated and labelled, "
+      "not asserted (the TCK demands override for service input decisions).")
+
+claim("C11", "generated item-definition trees (depth <= 3) with conforming values and values violating exactly one position; reference conformance/coercion from the statement",
+      "Exploration: tens of thousands of item-definition trees used as input and output types; echo decisions show what reached the logic; "
+      "typed output variables of decisions, knowledge models and services show the coercion.",
+      "Trusts pbt/oracles/itemdef_ref.py (+ C16's reference coercion). Extra context entries, allowed values on referencing definitions and "
+      "on outputs are labelled and not asserted.")
